@@ -11,6 +11,8 @@ package main
 import (
 	"bytes"
 	"context"
+	crand "crypto/rand"
+	"crypto/sha256"
 	"encoding/asn1"
 	"encoding/hex"
 	"fmt"
@@ -64,11 +66,19 @@ type sigGroup struct {
 	Alpha   []string    `json:"alpha"`
 	Digests []string    `json:"digests"`
 	Cases   []sigCaseIn `json:"cases"`
+	// key generation: delivery policy (absent: derived from sched), bag policies allowed, explicit schedule from TLC, id of the
+	// record that reports the key generation itself (absent: none)
+	DkgPolicy *int     `json:"dkg_policy"`
+	Bag       bool     `json:"bag"`
+	DkgSched  [][3]int `json:"dkg_sched"`
+	DkgID     *int     `json:"dkg_id"`
 }
 
 type sigJob struct {
+	Probe    bool       `json:"probe"`
 	Workers  int        `json:"workers"`
 	TimeoutS int        `json:"timeout_s"`
+	GraceS   int        `json:"grace_s"`
 	Groups   []sigGroup `json:"groups"`
 }
 
@@ -147,7 +157,14 @@ func sigClassify(err error) string {
 }
 
 // ------------------------------------------------------------------------------------------------------------------------------
-// in-process DKG with a seeded delivery schedule (per-link FIFO, one scheduler goroutine)
+// in-process DKG: one message pool, one scheduler goroutine that decides which pending message is delivered next.
+//   FIFO policies (every sender->receiver link delivers in sending order): 0 seeded random link, 1 lowest link first, 2 highest link
+//   first, 3 one party receives only when nothing else is deliverable;
+//   bag policies (ANY pending message may be delivered next, the back ends are written for that): 4 seeded random message, 5 newest
+//   message first, 6 reveals before commitments before shares;
+//   explicit schedule: the deliveries (kind, from, to) in the order given by TLC (spec/Sig.tla, DKG part); the scheduler waits for each
+//   message to be produced.
+// The order actually executed is recorded and validated by TLC against the DKG model (spec/SigTrace.tla).
 
 type sigDKGParty interface {
 	Init(parties []uint16, threshold int, sendMsg func(msg []byte, isBroadcast bool, to uint16))
@@ -156,25 +173,48 @@ type sigDKGParty interface {
 	ThresholdPK() ([]byte, error)
 }
 
-type sigLink struct{ from, to int }
-type sigNetMsg struct {
-	data  []byte
-	bcast bool
+type sigPoolMsg struct {
+	kind, from, to int // kind: first byte of the message (1 share, 2 commitment, 3 public key); from / to: positions 0..n-1
+	data           []byte
+	bcast          bool
+	seq            int
 }
 
-type sigNet struct {
-	mu   sync.Mutex
-	cond *sync.Cond
-	q    map[sigLink][]sigNetMsg
-	stop bool
+type sigDKGOpts struct {
+	seed    int64
+	policy  int      // -1: derived from the seed
+	bag     bool     // allow the bag policies when the policy is derived from the seed
+	sched   [][3]int // explicit schedule (kind, from, to), positions 1..n; nil: policy
+	timeout time.Duration
+	grace   time.Duration // nothing deliverable, nothing produced and not everybody finished for this long: stuck
 }
 
-// sigRunDKG runs a complete key generation among the given (fresh) parties. Returns the stored share data of every party, the public
-// material every party reports, and a non-empty error text if some party failed.
-func sigRunDKG(parties []sigDKGParty, ids []uint16, t int, seed int64, timeout time.Duration) (shares [][]byte, pubs [][]byte, errText string) {
+type sigDKGResult struct {
+	shares  [][]byte
+	pubs    [][]byte
+	errText string
+	done    []bool   // KeyGen returned without error
+	order   [][3]int // deliveries in the order executed (kind, from, to), positions 1..n
+	policy  int
+	stuck   bool // ended by the grace period (every produced message delivered or the scheduled message never produced)
+}
+
+const sigNumFifoPolicies, sigNumPolicies = 4, 7
+
+func sigRunDKG(parties []sigDKGParty, ids []uint16, t int, o sigDKGOpts) *sigDKGResult {
 	n := len(parties)
-	net := &sigNet{q: make(map[sigLink][]sigNetMsg)}
-	net.cond = sync.NewCond(&net.mu)
+	res := &sigDKGResult{done: make([]bool, n)}
+	var mu sync.Mutex
+	var pool []sigPoolMsg
+	seq := 0
+	stop := false
+	wake := make(chan struct{}, 1)
+	poke := func() {
+		select {
+		case wake <- struct{}{}:
+		default:
+		}
+	}
 	pos := make(map[uint16]int)
 	for i, id := range ids {
 		pos[id] = i
@@ -183,94 +223,169 @@ func sigRunDKG(parties []sigDKGParty, ids []uint16, t int, seed int64, timeout t
 		from := i
 		parties[i].Init(ids, t, func(msg []byte, isBroadcast bool, to uint16) {
 			cp := append([]byte(nil), msg...)
-			net.mu.Lock()
+			kind := 0
+			if len(cp) > 0 {
+				kind = int(cp[0])
+			}
+			mu.Lock()
 			if isBroadcast {
 				for j := 0; j < n; j++ {
 					if j != from {
-						l := sigLink{from, j}
-						net.q[l] = append(net.q[l], sigNetMsg{cp, true})
+						pool = append(pool, sigPoolMsg{kind, from, j, cp, true, seq})
+						seq++
 					}
 				}
 			} else {
-				l := sigLink{from, pos[to]}
-				net.q[l] = append(net.q[l], sigNetMsg{cp, false})
+				pool = append(pool, sigPoolMsg{kind, from, pos[to], cp, false, seq})
+				seq++
 			}
-			net.cond.Broadcast()
-			net.mu.Unlock()
+			mu.Unlock()
+			poke()
 		})
 	}
-	rng := rand.New(rand.NewSource(seed))
-	policy := int(uint64(seed) % 4)
+	rng := rand.New(rand.NewSource(o.seed))
+	policy := o.policy
+	if policy < 0 {
+		if o.bag {
+			policy = int(uint64(o.seed) % sigNumPolicies)
+		} else {
+			policy = int(uint64(o.seed) % sigNumFifoPolicies)
+		}
+	}
+	res.policy = policy
 	starved := rng.Intn(n)
+	ctx, cancel := context.WithTimeout(context.Background(), o.timeout)
+	defer cancel()
+	// choose: index into pool of the message to deliver next, -1 if none is deliverable now
+	step := 0
+	choose := func() int {
+		if len(pool) == 0 {
+			return -1
+		}
+		if step < len(o.sched) {
+			w := o.sched[step]
+			for i, m := range pool {
+				if m.kind == w[0] && m.from == w[1]-1 && m.to == w[2]-1 {
+					return i
+				}
+			}
+			return -1
+		}
+		var cand []int
+		if policy < sigNumFifoPolicies && o.sched == nil {
+			oldest := map[[2]int]int{}
+			for i, m := range pool {
+				k := [2]int{m.from, m.to}
+				if j, ok := oldest[k]; !ok || m.seq < pool[j].seq {
+					oldest[k] = i
+				}
+			}
+			for _, i := range oldest {
+				cand = append(cand, i)
+			}
+		} else {
+			for i := range pool {
+				cand = append(cand, i)
+			}
+		}
+		sort.Slice(cand, func(a, b int) bool {
+			x, y := pool[cand[a]], pool[cand[b]]
+			if x.from != y.from {
+				return x.from < y.from
+			}
+			if x.to != y.to {
+				return x.to < y.to
+			}
+			return x.seq < y.seq
+		})
+		switch policy {
+		case 1:
+			return cand[0]
+		case 2:
+			return cand[len(cand)-1]
+		case 3:
+			var rest []int
+			for _, i := range cand {
+				if pool[i].to != starved {
+					rest = append(rest, i)
+				}
+			}
+			if len(rest) > 0 {
+				return rest[rng.Intn(len(rest))]
+			}
+			return cand[rng.Intn(len(cand))]
+		case 5:
+			best := cand[0]
+			for _, i := range cand {
+				if pool[i].seq > pool[best].seq {
+					best = i
+				}
+			}
+			return best
+		case 6:
+			top := 0
+			for _, i := range cand {
+				if pool[i].kind > top {
+					top = pool[i].kind
+				}
+			}
+			var rest []int
+			for _, i := range cand {
+				if pool[i].kind == top {
+					rest = append(rest, i)
+				}
+			}
+			return rest[rng.Intn(len(rest))]
+		default: // 0, 4 (and whatever is left after an explicit schedule)
+			return cand[rng.Intn(len(cand))]
+		}
+	}
 	schedDone := make(chan struct{})
 	go func() {
 		defer close(schedDone)
 		for {
-			net.mu.Lock()
-			var links []sigLink
-			for {
-				links = links[:0]
-				for l, q := range net.q {
-					if len(q) > 0 {
-						links = append(links, l)
-					}
-				}
-				if len(links) > 0 || net.stop {
-					break
-				}
-				net.cond.Wait()
-			}
-			if len(links) == 0 {
-				net.mu.Unlock()
+			mu.Lock()
+			if stop {
+				mu.Unlock()
 				return
 			}
-			sort.Slice(links, func(a, b int) bool {
-				if links[a].from != links[b].from {
-					return links[a].from < links[b].from
-				}
-				return links[a].to < links[b].to
-			})
-			var l sigLink
-			switch policy {
-			case 0: // seeded random link
-				l = links[rng.Intn(len(links))]
-			case 1: // lowest link first
-				l = links[0]
-			case 2: // highest link first
-				l = links[len(links)-1]
-			default: // one party receives only when nothing else is deliverable
-				var rest []sigLink
-				for _, x := range links {
-					if x.to != starved {
-						rest = append(rest, x)
+			i := choose()
+			if i < 0 {
+				mu.Unlock()
+				select {
+				case <-wake:
+				case <-time.After(o.grace):
+					mu.Lock()
+					if !stop && choose() < 0 {
+						res.stuck = true
+						mu.Unlock()
+						cancel() // the parties that still wait return an error
+						return
 					}
+					mu.Unlock()
 				}
-				if len(rest) > 0 {
-					l = rest[rng.Intn(len(rest))]
-				} else {
-					l = links[rng.Intn(len(links))]
-				}
+				continue
 			}
-			m := net.q[l][0]
-			net.q[l] = net.q[l][1:]
-			net.mu.Unlock()
+			m := pool[i]
+			pool = append(pool[:i], pool[i+1:]...)
+			step++
+			res.order = append(res.order, [3]int{m.kind, m.from + 1, m.to + 1})
+			mu.Unlock()
 			func() {
 				defer func() {
 					if r := recover(); r != nil {
-						net.mu.Lock()
-						if errText == "" {
-							errText = fmt.Sprintf("panic in OnMsg of party %d: %v", ids[l.to], r)
+						mu.Lock()
+						if res.errText == "" {
+							res.errText = fmt.Sprintf("panic in OnMsg of party %d: %v", ids[m.to], r)
 						}
-						net.mu.Unlock()
+						mu.Unlock()
 					}
 				}()
-				parties[l.to].OnMsg(m.data, ids[l.from], m.bcast)
+				parties[m.to].OnMsg(m.data, ids[m.from], m.bcast)
 			}()
 		}
 	}()
-	ctx, cancel := context.WithTimeout(context.Background(), timeout)
-	defer cancel()
-	shares = make([][]byte, n)
+	shares := make([][]byte, n)
 	errs := make([]string, n)
 	var wg sync.WaitGroup
 	for i := range parties {
@@ -288,30 +403,37 @@ func sigRunDKG(parties []sigDKGParty, ids []uint16, t int, seed int64, timeout t
 				return
 			}
 			shares[i] = sh
+			res.done[i] = true
 		}(i)
 	}
 	wg.Wait()
-	timedOut := ctx.Err() != nil
-	net.mu.Lock()
-	net.stop = true
-	net.cond.Broadcast()
-	net.mu.Unlock()
+	mu.Lock()
+	stop = true
+	left := len(pool)
+	mu.Unlock()
+	poke()
 	<-schedDone
-	if timedOut {
-		return nil, nil, "timeout: key generation did not complete in " + timeout.String()
+	mu.Lock()
+	e := res.errText
+	mu.Unlock()
+	if e == "" && ctx.Err() != nil && !res.stuck {
+		e = "timeout: key generation did not complete in " + o.timeout.String()
 	}
-	net.mu.Lock()
-	e := errText
-	net.mu.Unlock()
 	for _, x := range errs {
 		if x != "" && e == "" {
 			e = x
 		}
 	}
-	if e != "" {
-		return nil, nil, e
+	if e == "" && left > 0 {
+		// everybody finished although messages were still pending: harmless, but the recorded order then is not a complete schedule
+		e = ""
 	}
-	pubs = make([][]byte, n)
+	res.errText = e
+	if e != "" {
+		return res
+	}
+	res.shares = shares
+	res.pubs = make([][]byte, n)
 	for i := range parties {
 		var p []byte
 		err, _ := sigTry(func() error {
@@ -320,11 +442,45 @@ func sigRunDKG(parties []sigDKGParty, ids []uint16, t int, seed int64, timeout t
 			return err
 		})
 		if err != nil {
-			return nil, nil, fmt.Sprintf("ThresholdPK of party %d: %v", ids[i], err)
+			res.errText = fmt.Sprintf("ThresholdPK of party %d: %v", ids[i], err)
+			return res
 		}
-		pubs[i] = p
+		res.pubs[i] = p
 	}
-	return shares, pubs, ""
+	return res
+}
+
+// sigDKG runs a key generation; a run that hit the overall timeout is repeated once with another seed; a run that got stuck (nothing
+// deliverable, not everybody finished) is repeated once, alone in its order of deliveries and with a three times longer grace period,
+// and counts as stuck only if that reproduces it.
+func sigDKG(mk func() []sigDKGParty, ids []uint16, t int, o sigDKGOpts) *sigDKGResult {
+	r := sigRunDKG(mk(), ids, t, o)
+	if strings.HasPrefix(r.errText, "timeout") {
+		o2 := o
+		o2.seed += 7919
+		r = sigRunDKG(mk(), ids, t, o2)
+	}
+	if r.stuck {
+		o2 := o
+		o2.sched = r.order
+		o2.grace = 3 * o.grace
+		r2 := sigRunDKG(mk(), ids, t, o2)
+		if !r2.stuck && r2.errText == "" {
+			return r2
+		}
+		r2.policy = r.policy
+		return r2
+	}
+	return r
+}
+
+func (r *sigDKGResult) allDone() bool {
+	for _, d := range r.done {
+		if !d {
+			return false
+		}
+	}
+	return true
 }
 
 func sigAllEqual(bs [][]byte) bool {
@@ -687,25 +843,24 @@ type sigPsSession struct {
 	pubeq   bool
 	err     string
 	signers []*ps.TPS
+	dkg     *sigDKGResult
 }
 
 func sigNewTPS(id uint16, L int) *ps.TPS {
 	return &ps.TPS{Curve: sigCurve, Party: id, Logger: sigNopLogger{}, MessageLength: L}
 }
 
-func sigNewPsSession(n, t, L int, ids []uint16, sched int64, timeout time.Duration) *sigPsSession {
+func sigNewPsSession(n, t, L int, ids []uint16, o sigDKGOpts) *sigPsSession {
 	s := &sigPsSession{n: n, t: t, L: L, ids: ids}
-	var pubs [][]byte
-	for attempt := 0; attempt < 2; attempt++ {
+	s.dkg = sigDKG(func() []sigDKGParty {
 		parties := make([]sigDKGParty, n)
 		for i := range parties {
 			parties[i] = sigNewTPS(ids[i], L)
 		}
-		s.shares, pubs, s.err = sigRunDKG(parties, ids, t, sched+int64(attempt)*7919, timeout)
-		if !strings.HasPrefix(s.err, "timeout") {
-			break
-		}
-	}
+		return parties
+	}, ids, t, o)
+	s.shares, s.err = s.dkg.shares, s.dkg.errText
+	pubs := s.dkg.pubs
 	if s.err != "" {
 		return s
 	}
@@ -856,7 +1011,7 @@ type sigPsGroup struct {
 	a, b   *sigPsSession // b: another DKG session (cross-session substitutions), created on demand
 	bases  map[string]*sigPsBase
 	basesB map[string]*sigPsBase
-	tmo    time.Duration
+	opts   sigDKGOpts
 }
 
 func (pg *sigPsGroup) message(mv []int) [][]byte {
@@ -869,7 +1024,9 @@ func (pg *sigPsGroup) message(mv []int) [][]byte {
 
 func (pg *sigPsGroup) sessB() *sigPsSession {
 	if pg.b == nil {
-		pg.b = sigNewPsSession(pg.g.N, pg.g.T, pg.g.L, sigU16(pg.g.Ids), pg.g.Sched+104729, pg.tmo)
+		o := pg.opts
+		o.seed, o.sched = o.seed+104729, nil
+		pg.b = sigNewPsSession(pg.g.N, pg.g.T, pg.g.L, sigU16(pg.g.Ids), o)
 	}
 	return pg.b
 }
@@ -927,8 +1084,7 @@ func (pg *sigPsGroup) run(ci sigCaseIn) sigOut {
 	o := sigOut{ID: ci.ID, C: c, Gid: pg.g.Gid, Same: true, Pubeq: true}
 	s := pg.a
 	if s.err != "" {
-		o.Pubeq = false
-		o.setupFailed("dkg", fmt.Errorf("%s", s.err))
+		o.setupFailed("dkg", fmt.Errorf("%s", s.err)) // (no public material to compare: reported by the record of the key generation)
 		return o
 	}
 	o.Pubeq = s.pubeq
@@ -953,6 +1109,12 @@ func (pg *sigPsGroup) run(ci sigCaseIn) sigOut {
 		pg.runObjVerify(&c, &o)
 	case "tpk":
 		pg.runTpk(&c, &o)
+	case "mall":
+		pg.runMall(&c, &o)
+	case "forge":
+		pg.runForge(&c, &o)
+	case "oracle":
+		pg.runOracle(&c, &o)
 	default:
 		fatal("sig: unknown ps object %q", c.Obj)
 	}
@@ -1436,6 +1598,530 @@ func (pg *sigPsGroup) runTpk(c *sigCase, o *sigOut) {
 }
 
 // ------------------------------------------------------------------------------------------------------------------------------
+// Fiat-Shamir binding: compensated alterations (exported API only), oracle sensitivity and forgeries (verif-tag oracle wrappers)
+
+type sigRawPP struct {
+	Data [][]byte
+}
+
+// sigParams: the public parameters of mpc/ps for message length L, from the exported PP.Bytes(): g2, g0, g, gs[]
+type sigParams struct {
+	g2, g0, g []byte
+	gs        [][]byte
+}
+
+func sigGetParams(L int) sigParams {
+	var raw sigRawPP
+	var gs sigRawXYs
+	pp := ps.Setup(sigCurve, L)
+	if err := sigUnmarshal(pp.Bytes(), &raw); err != nil || len(raw.Data) != 5 {
+		fatal("sig: public parameter encoding: %v", err)
+	}
+	if err := sigUnmarshal(raw.Data[3], &gs); err != nil || len(gs.Ys) != L+1 {
+		fatal("sig: generator list encoding: %v", err)
+	}
+	return sigParams{g2: raw.Data[0], g0: raw.Data[1], g: raw.Data[2], gs: gs.Ys}
+}
+
+func sigPt1(b []byte) *math.G1 {
+	p, err := sigCurve.NewG1FromBytes(b)
+	if err != nil {
+		fatal("sig: G1 element: %v", err)
+	}
+	return p
+}
+
+func sigPt2(b []byte) *math.G2 {
+	p, err := sigCurve.NewG2FromBytes(b)
+	if err != nil {
+		fatal("sig: G2 element: %v", err)
+	}
+	return p
+}
+
+func sigAddG1(a, b []byte) []byte { p := sigPt1(a); p.Add(sigPt1(b)); return p.Bytes() }
+func sigAddG2(a, b []byte) []byte { p := sigPt2(a); p.Add(sigPt2(b)); return p.Bytes() }
+func sigZrPlus1(a []byte) []byte {
+	return sigCurve.ModAdd(sigCurve.NewZrFromBytes(a), sigCurve.NewZrFromInt(1), sigCurve.GroupOrder).Bytes()
+}
+
+func (s *sigPsSession) thresholdKey() sigRawXYs {
+	var tp sigRawThresholdPK
+	var xy sigRawXYs
+	if err := sigUnmarshal(s.pub, &tp); err != nil {
+		fatal("sig: public parameter encoding: %v", err)
+	}
+	if err := sigUnmarshal(tp.TPK, &xy); err != nil {
+		fatal("sig: threshold key encoding: %v", err)
+	}
+	return xy
+}
+
+// verifyProof3: Verifier.Verify twice with one verifier and once with a fresh one
+func (pg *sigPsGroup) verifyProof3(proof []byte, o *sigOut) {
+	s := pg.a
+	p0 := sigCopy(proof)
+	v, err := sigNewPsVerifier(s.L, s.pub)
+	if err != nil {
+		o.verdict3("verifier-init", err, err, err)
+		return
+	}
+	e1 := sigPsVerify(v, proof)
+	e2 := sigPsVerify(v, proof)
+	v3, err := sigNewPsVerifier(s.L, s.pub)
+	if err == nil {
+		err = sigPsVerify(v3, sigCopy(p0))
+	}
+	o.verdict3("verify", e1, e2, err)
+	o.Same = bytes.Equal(proof, p0)
+}
+
+// signRequest3: TPS.Sign twice at one signer instance and once at a fresh one
+func (pg *sigPsGroup) signRequest3(req []byte, who int, o *sigOut) {
+	s := pg.a
+	r0 := sigCopy(req)
+	signer := s.signers[who]
+	_, e1 := sigSign(signer, req)
+	_, e2 := sigSign(signer, req)
+	fs, err := s.freshSigner(who)
+	if err == nil {
+		_, err = sigSign(fs, sigCopy(r0))
+	}
+	o.verdict3("sign", e1, e2, err)
+	o.Same = bytes.Equal(req, r0)
+}
+
+// runMall: a genuine proof / request altered in several components that compensate each other in every verification equation; the
+// result still verifies exactly if the library's challenge did not change. Exported API and byte encodings only.
+func (pg *sigPsGroup) runMall(c *sigCase, o *sigOut) {
+	s := pg.a
+	b := pg.base(c)
+	if b.stage != "" {
+		o.setupFailed(b.stage, b.err)
+		return
+	}
+	pp := sigGetParams(s.L)
+	if c.Field == "pok" {
+		var r sigRawSigPok
+		var p sigRawPsi
+		if err := sigUnmarshal(b.proof, &r); err != nil || len(r.Data) != 5 {
+			fatal("sig: proof encoding: %v", err)
+		}
+		if err := sigUnmarshal(r.Data[0], &p); err != nil {
+			fatal("sig: proof encoding: %v", err)
+		}
+		switch c.Kind {
+		case "gamma-x": // Gamma*Y_i, x_i+1
+			key := s.thresholdKey()
+			p.Gamma = sigAddG2(p.Gamma, key.Ys[c.I-1])
+			p.X[c.I-1] = sigZrPlus1(p.X[c.I-1])
+		case "gamma-phi-y": // Gamma*g2, Phi*h^eps, y+1
+			p.Gamma = sigAddG2(p.Gamma, pp.g2)
+			p.Phi = sigAddG1(p.Phi, r.Data[1])
+			p.Y = sigZrPlus1(p.Y)
+		default:
+			fatal("sig: unknown compensated alteration %q", c.Kind)
+		}
+		r.Data[0] = sigMarshal(p)
+		alt := sigMarshal(r)
+		o.Changed = !bytes.Equal(alt, b.proof)
+		pg.verifyProof3(alt, o)
+		return
+	}
+	var r sigRawBlindSig
+	var p sigRawCorrectProof
+	if err := sigUnmarshal(b.req, &r); err != nil {
+		fatal("sig: request encoding: %v", err)
+	}
+	if err := sigUnmarshal(r.CorrectFormProof, &p); err != nil {
+		fatal("sig: request encoding: %v", err)
+	}
+	switch c.Kind {
+	case "s-z": // s*g0, z+1
+		p.S = sigAddG1(p.S, pp.g0)
+		p.Z = sigZrPlus1(p.Z)
+	case "d-f-x": // d_i*u, f_i*g, x_i+1
+		p.D[c.I-1] = sigAddG1(p.D[c.I-1], r.U)
+		p.F[c.I-1] = sigAddG1(p.F[c.I-1], pp.g)
+		p.X[c.I-1] = sigZrPlus1(p.X[c.I-1])
+	default:
+		fatal("sig: unknown compensated alteration %q", c.Kind)
+	}
+	r.CorrectFormProof = sigMarshal(p)
+	alt := sigMarshal(r)
+	o.Changed = !bytes.Equal(alt, b.req)
+	pg.signRequest3(alt, s.posOf(c.S[c.Who-1]), o)
+}
+
+// sigOracleHooks: the verif-tag wrappers around the unexported Fiat-Shamir oracles of mpc/ps (mpc/ps/verif_oracle.go). They are
+// looked up at run time so that the driver also builds against a tree that does not have them (those checks are skipped then).
+type sigOracleHooks interface {
+	VerifChallengePoK(gamma, phi, nu, heps, g2, x, kappa []byte, ys [][]byte) ([]byte, error)
+	VerifChallengeBlind(n int, d, f [][]byte, s []byte, a, b [][]byte, cm, g, g0, h, u []byte, gs [][]byte) ([]byte, error)
+}
+
+func sigHooks() sigOracleHooks {
+	h, _ := interface{}(&ps.Verifier{}).(sigOracleHooks)
+	return h
+}
+
+// the named arguments of the two oracles
+type sigOracleArgs struct {
+	pok bool
+	sc  map[string][]byte   // scalar arguments by name
+	vec map[string][][]byte // vector arguments by name
+	n   int
+}
+
+func (a *sigOracleArgs) set(name string, i int, b []byte) {
+	if i == 0 {
+		a.sc[name] = b
+	} else {
+		a.vec[name][i-1] = b
+	}
+}
+
+func (a *sigOracleArgs) get(name string, i int) []byte {
+	if i == 0 {
+		b, ok := a.sc[name]
+		if !ok {
+			fatal("sig: oracle has no argument %q", name)
+		}
+		return b
+	}
+	v, ok := a.vec[name]
+	if !ok || i > len(v) {
+		fatal("sig: oracle has no argument %q[%d]", name, i)
+	}
+	return v[i-1]
+}
+
+func (a *sigOracleArgs) isG2(name string) bool {
+	return a.pok && (name == "Y" || name == "X" || name == "g2" || name == "gamma" || name == "kappa")
+}
+
+func (a *sigOracleArgs) clone() *sigOracleArgs {
+	c := &sigOracleArgs{pok: a.pok, n: a.n, sc: map[string][]byte{}, vec: map[string][][]byte{}}
+	for k, v := range a.sc {
+		c.sc[k] = sigCopy(v)
+	}
+	for k, v := range a.vec {
+		c.vec[k] = sigCopy2(v)
+	}
+	return c
+}
+
+func (a *sigOracleArgs) equal(b *sigOracleArgs) bool {
+	for k, v := range a.sc {
+		if !bytes.Equal(v, b.sc[k]) {
+			return false
+		}
+	}
+	for k, v := range a.vec {
+		if !sigEq2(v, b.vec[k]) {
+			return false
+		}
+	}
+	return true
+}
+
+func (a *sigOracleArgs) challenge(h sigOracleHooks) ([]byte, error) {
+	var out []byte
+	err, _ := sigTry(func() error {
+		var e error
+		if a.pok {
+			out, e = h.VerifChallengePoK(a.sc["gamma"], a.sc["phi"], a.sc["nu"], a.sc["heps"], a.sc["g2"], a.sc["X"], a.sc["kappa"], a.vec["Y"])
+		} else {
+			out, e = h.VerifChallengeBlind(a.n, a.vec["d"], a.vec["f"], a.sc["s"], a.vec["a"], a.vec["b"], a.sc["cm"], a.sc["g"], a.sc["g0"],
+				a.sc["h"], a.sc["u"], a.vec["gs"])
+		}
+		return e
+	})
+	return out, err
+}
+
+// the full commitment and the base h that SignBlindSignature derives from a request: cm * gs[n-1]^mPrime, HashToG1(that)
+func sigRequestBase(cm0, mPrime []byte, pp sigParams) (cm, h []byte) {
+	p := sigPt1(cm0)
+	p.Add(sigPt1(pp.gs[len(pp.gs)-1]).Mul(sigCurve.NewZrFromBytes(mPrime)))
+	return p.Bytes(), sigCurve.HashToG1(p.Bytes()).Bytes()
+}
+
+func (pg *sigPsGroup) oracleArgs(c *sigCase, b *sigPsBase) *sigOracleArgs {
+	s := pg.a
+	pp := sigGetParams(s.L)
+	if c.Field == "pok" {
+		var r sigRawSigPok
+		var p sigRawPsi
+		if err := sigUnmarshal(b.proof, &r); err != nil || len(r.Data) != 5 {
+			fatal("sig: proof encoding: %v", err)
+		}
+		if err := sigUnmarshal(r.Data[0], &p); err != nil {
+			fatal("sig: proof encoding: %v", err)
+		}
+		key := s.thresholdKey()
+		return &sigOracleArgs{pok: true, n: s.L + 1, sc: map[string][]byte{"gamma": p.Gamma, "phi": p.Phi, "nu": r.Data[3], "heps": r.Data[1],
+			"g2": pp.g2, "X": key.X, "kappa": r.Data[4]}, vec: map[string][][]byte{"Y": sigCopy2(key.Ys)}}
+	}
+	var r sigRawBlindSig
+	var p sigRawCorrectProof
+	if err := sigUnmarshal(b.req, &r); err != nil {
+		fatal("sig: request encoding: %v", err)
+	}
+	if err := sigUnmarshal(r.CorrectFormProof, &p); err != nil {
+		fatal("sig: request encoding: %v", err)
+	}
+	cm, h := sigRequestBase(r.CM, r.MPrime, pp)
+	return &sigOracleArgs{n: s.L + 1, sc: map[string][]byte{"s": p.S, "cm": cm, "g": pp.g, "g0": pp.g0, "h": h, "u": r.U},
+		vec: map[string][][]byte{"d": sigCopy2(p.D), "f": sigCopy2(p.F), "a": sigCopy2(r.A), "b": sigCopy2(r.B), "gs": sigCopy2(pp.gs)}}
+}
+
+// runOracle: sensitivity of the library's oracle to one argument (kind = name) or to the exchange of two arguments (kind = "a~b").
+// v1 = TRUE ("accepted") means: the challenge is the SAME.
+func (pg *sigPsGroup) runOracle(c *sigCase, o *sigOut) {
+	hk := sigHooks()
+	if hk == nil {
+		fatal("sig: oracle case without the oracle wrappers (mpc/ps/verif_oracle.go)")
+	}
+	b := pg.base(c)
+	if b.stage != "" {
+		o.setupFailed(b.stage, b.err)
+		return
+	}
+	a0 := pg.oracleArgs(c, b)
+	a1 := a0.clone()
+	if parts := strings.Split(c.Kind, "~"); len(parts) == 2 {
+		x, y := a0.get(parts[0], c.I), a0.get(parts[1], c.J)
+		a1.set(parts[0], c.I, sigCopy(y))
+		a1.set(parts[1], c.J, sigCopy(x))
+	} else {
+		typ := sigG1
+		if a0.isG2(c.Kind) {
+			typ = sigG2
+		}
+		nb, err := sigPertValue(typ, a0.get(c.Kind, c.I), "addgen", nil)
+		if err != nil {
+			fatal("sig: perturbing oracle argument: %v", err)
+		}
+		a1.set(c.Kind, c.I, nb)
+	}
+	o.Changed = !a0.equal(a1)
+	keep0, keep1 := a0.clone(), a1.clone()
+	same := func(h sigOracleHooks) error {
+		c0, err := a0.challenge(h)
+		if err != nil {
+			return fmt.Errorf("oracle: %v", err)
+		}
+		c1, err := a1.challenge(h)
+		if err != nil {
+			return fmt.Errorf("oracle: %v", err)
+		}
+		if !bytes.Equal(c0, c1) {
+			return fmt.Errorf("challenge differs")
+		}
+		return nil
+	}
+	e1, e2, e3 := same(hk), same(hk), same(sigHooks())
+	o.verdict3("oracle", e1, e2, e3)
+	if e1 != nil {
+		o.Eq = "differs"
+		if strings.HasPrefix(e1.Error(), "oracle:") {
+			o.Eq = "other"
+		}
+	}
+	o.Same = a0.equal(keep0) && a1.equal(keep1)
+}
+
+func sigRandZr() *math.Zr { return sigCurve.NewRandomZr(crand.Reader) }
+func sigMulZr(a, b *math.Zr) *math.Zr { return sigCurve.ModMul(a, b, sigCurve.GroupOrder) }
+func sigAddZr(a, b *math.Zr) *math.Zr { return sigCurve.ModAdd(a, b, sigCurve.GroupOrder) }
+func sigSubZr(a, b *math.Zr) *math.Zr { return sigCurve.ModSub(a, b, sigCurve.GroupOrder) }
+
+// runForge: a Byzantine prover that computes the challenge with the library's own oracle (wrappers) before it fixes one proof
+// commitment (weak Fiat-Shamir attack), and the controls that validate this binding.
+func (pg *sigPsGroup) runForge(c *sigCase, o *sigOut) {
+	hk := sigHooks()
+	if hk == nil {
+		fatal("sig: forgery case without the oracle wrappers (mpc/ps/verif_oracle.go)")
+	}
+	s := pg.a
+	pp := sigGetParams(s.L)
+	n := s.L + 1
+	if c.Field == "pok" {
+		key := s.thresholdKey()
+		g2 := sigPt2(pp.g2)
+		X := sigPt2(key.X)
+		if c.Kind == "control" {
+			// for a genuine proof the challenge of the wrapper satisfies g2^y prod Y_i^x_i = Gamma (kappa/X)^e
+			b := pg.base(c)
+			if b.stage != "" {
+				o.setupFailed(b.stage, b.err)
+				return
+			}
+			a := pg.oracleArgs(&sigCase{Field: "pok"}, b)
+			var r sigRawSigPok
+			var p sigRawPsi
+			sigUnmarshal(b.proof, &r)
+			sigUnmarshal(r.Data[0], &p)
+			check := func(h sigOracleHooks) error {
+				eb, err := a.challenge(h)
+				if err != nil {
+					return err
+				}
+				e := sigCurve.NewZrFromBytes(eb)
+				left := g2.Mul(sigCurve.NewZrFromBytes(p.Y))
+				for i := range p.X {
+					left.Add(sigPt2(key.Ys[i]).Mul(sigCurve.NewZrFromBytes(p.X[i])))
+				}
+				kx := sigPt2(r.Data[4])
+				kx.Sub(X)
+				right := sigPt2(p.Gamma)
+				right.Add(kx.Mul(e))
+				if !left.Equals(right) {
+					return fmt.Errorf("κ is not well formed (with the challenge of the wrapper)")
+				}
+				return nil
+			}
+			o.verdict3("verify", check(hk), check(hk), check(sigHooks()))
+			return
+		}
+		// kappa = g2^k, h^eps arbitrary, nu = (h^eps)^del, h'^eps = (h^eps)^(k-del), Phi = (h^eps)^mu
+		k, del, mu := sigRandZr(), sigRandZr(), sigRandZr()
+		heps := sigCurve.GenG1.Mul(sigRandZr())
+		kappa := g2.Mul(k)
+		nu := heps.Mul(del)
+		phi := heps.Mul(mu)
+		hpeps := heps.Mul(sigSubZr(k, del))
+		eb, err := hk.VerifChallengePoK(pp.g2 /* placeholder for Gamma */, phi.Bytes(), nu.Bytes(), heps.Bytes(), pp.g2, key.X, kappa.Bytes(), key.Ys)
+		if err != nil {
+			o.setupFailed("oracle", err)
+			return
+		}
+		e := sigCurve.NewZrFromBytes(eb)
+		y := sigAddZr(mu, sigMulZr(e, del))
+		xs := make([][]byte, n)
+		gamma := g2.Mul(y)
+		for i := 0; i < n; i++ {
+			x := sigRandZr()
+			xs[i] = x.Bytes()
+			gamma.Add(sigPt2(key.Ys[i]).Mul(x))
+		}
+		kx := kappa.Copy()
+		kx.Sub(X)
+		gamma.Sub(kx.Mul(e)) // Gamma := g2^y prod Y^x (kappa/X)^-e
+		psi := sigMarshal(sigRawPsi{X: xs, Y: y.Bytes(), Gamma: gamma.Bytes(), Phi: phi.Bytes()})
+		proof := sigMarshal(sigRawSigPok{Data: [][]byte{psi, heps.Bytes(), hpeps.Bytes(), nu.Bytes(), kappa.Bytes()}})
+		o.Changed = true
+		pg.verifyProof3(proof, o)
+		return
+	}
+	// a blinded signing request built from scratch; target: the proof commitment that is solved for after the challenge
+	tgt, ti := c.Kind, c.I-1
+	msgB := pg.message(c.Mv)
+	g, g0 := sigPt1(pp.g), sigPt1(pp.g0)
+	gs := make([]*math.G1, n)
+	for i := range gs {
+		gs[i] = sigPt1(pp.gs[i])
+	}
+	one := sigCurve.GenG1
+	rcm, z := sigRandZr(), sigRandZr()
+	u := g.Mul(z)
+	cm0 := g0.Mul(rcm)
+	msg := make([]*math.Zr, n)
+	for i := 0; i < s.L; i++ {
+		msg[i] = sigCurve.HashToZr(msgB[i])
+		cm0.Add(gs[i].Mul(msg[i]))
+	}
+	if tgt == "s" {
+		cm0.Add(one) // the commitment no longer opens to the encrypted messages
+	}
+	dg := sha256.Sum256(cm0.Bytes())
+	mPrime := sigCurve.HashToZr(dg[:])
+	msg[n-1] = mPrime
+	cm := cm0.Copy()
+	cm.Add(gs[n-1].Mul(mPrime))
+	h := sigCurve.HashToG1(cm.Bytes())
+	r, al, be := make([]*math.Zr, n), make([]*math.Zr, n), make([]*math.Zr, n)
+	a, bb, d, f := make([]*math.G1, n), make([]*math.G1, n), make([]*math.G1, n), make([]*math.G1, n)
+	ga := sigRandZr()
+	sp := g0.Mul(ga)
+	for i := 0; i < n; i++ {
+		r[i], al[i], be[i] = sigRandZr(), sigRandZr(), sigRandZr()
+		a[i] = g.Mul(r[i])
+		bb[i] = h.Mul(msg[i])
+		bb[i].Add(u.Mul(r[i]))
+		if tgt == "f" && i == ti {
+			a[i].Add(one) // arbitrary ciphertext component
+		}
+		if tgt == "d" && i == ti {
+			bb[i].Add(one)
+		}
+		sp.Add(gs[i].Mul(be[i]))
+		d[i] = h.Mul(be[i])
+		d[i].Add(u.Mul(al[i]))
+		f[i] = g.Mul(al[i])
+		if (tgt == "d" || tgt == "f") && i == ti {
+			if tgt == "d" {
+				d[i] = one.Copy() // placeholder
+			} else {
+				f[i] = one.Copy()
+			}
+		}
+	}
+	if tgt == "s" {
+		sp = one.Copy()
+	}
+	bytesOf := func(ps []*math.G1) [][]byte {
+		out := make([][]byte, len(ps))
+		for i, p := range ps {
+			out[i] = p.Bytes()
+		}
+		return out
+	}
+	eb, err := hk.VerifChallengeBlind(n, bytesOf(d), bytesOf(f), sp.Bytes(), bytesOf(a), bytesOf(bb), cm.Bytes(), pp.g, pp.g0, h.Bytes(), u.Bytes(), pp.gs)
+	if err != nil {
+		o.setupFailed("oracle", err)
+		return
+	}
+	e := sigCurve.NewZrFromBytes(eb)
+	zz := sigAddZr(ga, sigMulZr(e, rcm))
+	xs, ys := make([]*math.Zr, n), make([]*math.Zr, n)
+	for i := 0; i < n; i++ {
+		xs[i] = sigAddZr(al[i], sigMulZr(e, r[i]))
+		ys[i] = sigAddZr(be[i], sigMulZr(e, msg[i]))
+	}
+	switch tgt {
+	case "s": // s := g0^z prod gs^y cm^-e
+		sp = g0.Mul(zz)
+		for i := 0; i < n; i++ {
+			sp.Add(gs[i].Mul(ys[i]))
+		}
+		sp.Sub(cm.Mul(e))
+	case "d": // d_i := u^x h^y b_i^-e
+		d[ti] = u.Mul(xs[ti])
+		d[ti].Add(h.Mul(ys[ti]))
+		d[ti].Sub(bb[ti].Mul(e))
+	case "f": // f_i := g^x a_i^-e
+		f[ti] = g.Mul(xs[ti])
+		f[ti].Sub(a[ti].Mul(e))
+	case "control":
+	default:
+		fatal("sig: unknown forgery target %q", tgt)
+	}
+	zrBytes := func(zs []*math.Zr) [][]byte {
+		out := make([][]byte, len(zs))
+		for i, x := range zs {
+			out[i] = x.Bytes()
+		}
+		return out
+	}
+	proof := sigMarshal(sigRawCorrectProof{X: zrBytes(xs), Y: zrBytes(ys), S: sp.Bytes(), Z: zz.Bytes(), D: bytesOf(d), F: bytesOf(f)})
+	req := sigMarshal(sigRawBlindSig{CorrectFormProof: proof, CM: cm0.Bytes(), MPrime: mPrime.Bytes(), U: u.Bytes(), A: bytesOf(a), B: bytesOf(bb)})
+	o.Changed = tgt != "control"
+	pg.signRequest3(req, s.posOf(c.S[c.Who-1]), o)
+}
+
+// ------------------------------------------------------------------------------------------------------------------------------
 // BLS sessions
 
 type sigBlsSession struct {
@@ -1446,21 +2132,20 @@ type sigBlsSession struct {
 	pubeq   bool
 	err     string
 	signers []*bls.TBLS
+	dkg     *sigDKGResult
 }
 
-func sigNewBlsSession(n, t int, ids []uint16, sched int64, timeout time.Duration) *sigBlsSession {
+func sigNewBlsSession(n, t int, ids []uint16, o sigDKGOpts) *sigBlsSession {
 	s := &sigBlsSession{n: n, t: t, ids: ids}
-	var pubs [][]byte
-	for attempt := 0; attempt < 2; attempt++ {
+	s.dkg = sigDKG(func() []sigDKGParty {
 		parties := make([]sigDKGParty, n)
 		for i := range parties {
 			parties[i] = &bls.TBLS{Party: ids[i], Logger: sigNopLogger{}}
 		}
-		s.shares, pubs, s.err = sigRunDKG(parties, ids, t, sched+int64(attempt)*7919, timeout)
-		if !strings.HasPrefix(s.err, "timeout") {
-			break
-		}
-	}
+		return parties
+	}, ids, t, o)
+	s.shares, s.err = s.dkg.shares, s.dkg.errText
+	pubs := s.dkg.pubs
 	if s.err != "" {
 		return s
 	}
@@ -1530,12 +2215,14 @@ type sigBlsGroup struct {
 	g       *sigGroup
 	digests [][]byte
 	a, b    *sigBlsSession
-	tmo     time.Duration
+	opts    sigDKGOpts
 }
 
 func (bg *sigBlsGroup) sessB() *sigBlsSession {
 	if bg.b == nil {
-		bg.b = sigNewBlsSession(bg.g.N, bg.g.T, sigU16(bg.g.Ids), bg.g.Sched+104729, bg.tmo)
+		o := bg.opts
+		o.seed, o.sched = o.seed+104729, nil
+		bg.b = sigNewBlsSession(bg.g.N, bg.g.T, sigU16(bg.g.Ids), o)
 	}
 	return bg.b
 }
@@ -1545,8 +2232,7 @@ func (bg *sigBlsGroup) run(ci sigCaseIn) sigOut {
 	o := sigOut{ID: ci.ID, C: c, Gid: bg.g.Gid, Same: true, Pubeq: true}
 	s := bg.a
 	if s.err != "" {
-		o.Pubeq = false
-		o.setupFailed("dkg", fmt.Errorf("%s", s.err))
+		o.setupFailed("dkg", fmt.Errorf("%s", s.err)) // (no public material to compare: reported by the record of the key generation)
 		return o
 	}
 	o.Pubeq = s.pubeq
@@ -1715,6 +2401,12 @@ func sigNorm(c *sigCase) {
 func sigMain() {
 	var job sigJob
 	readJob(&job)
+	if job.Probe {
+		em := newEmitter()
+		em.lines([]obj{{"e": "probe", "hooks": sigHooks() != nil}})
+		em.flush()
+		return
+	}
 	if job.Workers < 1 {
 		job.Workers = 4
 	}
@@ -1722,6 +2414,10 @@ func sigMain() {
 		job.TimeoutS = 60
 	}
 	tmo := time.Duration(job.TimeoutS) * time.Second
+	if job.GraceS < 1 {
+		job.GraceS = 10
+	}
+	grace := time.Duration(job.GraceS) * time.Second
 	em := newEmitter()
 	var mu sync.Mutex
 	total, dkgs := 0, 0
@@ -1736,13 +2432,39 @@ func sigMain() {
 				"pubeq": o.Pubeq, "stage": o.Stage, "eq": o.Eq, "err": o.Err, "gid": o.Gid, "ms": o.Ms})
 		}
 		nd := 1
+		opts := sigDKGOpts{seed: g.Sched, policy: -1, bag: g.Bag, sched: g.DkgSched, timeout: tmo, grace: grace}
+		if g.DkgPolicy != nil {
+			opts.policy = *g.DkgPolicy
+		}
+		// the record of the key generation itself: the deliveries in the order executed and who finished
+		dkgRecord := func(back string, r *sigDKGResult, pubeq bool) {
+			if g.DkgID == nil {
+				return
+			}
+			order := r.order
+			if order == nil {
+				order = [][3]int{}
+			}
+			eq := "ok"
+			if r.stuck {
+				eq = "stuck"
+			} else if r.errText != "" {
+				eq = "error"
+			}
+			ok := r.errText == "" && r.allDone()
+			outs = append(outs, obj{"id": *g.DkgID, "c": obj{"sch": "dkg", "back": back, "n": g.N, "t": g.T, "L": g.L, "sched": order, "policy": r.policy,
+				"explicit": len(g.DkgSched) > 0, "obj": "dkg", "field": back, "kind": "", "i": 0, "j": 0, "who": 0, "S": []int{}, "mv": []int{},
+				"ids": g.Ids}, "changed": false, "v1": ok, "v2": ok, "v3": ok, "same": true, "pubeq": ok && pubeq,
+				"stage": "dkg", "eq": eq, "err": sigErrText(fmt.Errorf("%s", r.errText)), "gid": g.Gid, "ms": 0, "done": r.done})
+		}
 		switch g.Sch {
 		case "ps":
-			pg := &sigPsGroup{g: g, alpha: sigHexAll(g.Alpha), bases: map[string]*sigPsBase{}, basesB: map[string]*sigPsBase{}, tmo: tmo}
+			pg := &sigPsGroup{g: g, alpha: sigHexAll(g.Alpha), bases: map[string]*sigPsBase{}, basesB: map[string]*sigPsBase{}, opts: opts}
 			if len(pg.alpha) < 3 {
 				fatal("sig: group %d: alphabet needs 3 entries", g.Gid)
 			}
-			pg.a = sigNewPsSession(g.N, g.T, g.L, sigU16(g.Ids), g.Sched, tmo)
+			pg.a = sigNewPsSession(g.N, g.T, g.L, sigU16(g.Ids), opts)
+			dkgRecord("ps", pg.a.dkg, pg.a.pubeq)
 			for _, ci := range g.Cases {
 				st := time.Now()
 				emit(pg.run(ci), st)
@@ -1751,11 +2473,12 @@ func sigMain() {
 				nd++
 			}
 		case "bls":
-			bg := &sigBlsGroup{g: g, digests: sigHexAll(g.Digests), tmo: tmo}
+			bg := &sigBlsGroup{g: g, digests: sigHexAll(g.Digests), opts: opts}
 			if len(bg.digests) < 2 {
 				fatal("sig: group %d: two digests needed", g.Gid)
 			}
-			bg.a = sigNewBlsSession(g.N, g.T, sigU16(g.Ids), g.Sched, tmo)
+			bg.a = sigNewBlsSession(g.N, g.T, sigU16(g.Ids), opts)
+			dkgRecord("bls", bg.a.dkg, bg.a.pubeq)
 			for _, ci := range g.Cases {
 				st := time.Now()
 				emit(bg.run(ci), st)
